@@ -741,6 +741,10 @@ func parseSecret(node *syntax.ObjectNode, name *StringExpr, value Expr) (Expr, s
 	if !ok {
 		str = String("")
 		diags = syntax.Diagnostics{ExprError(value, "secret values must be string literals")}
+	} else if lit, isLit := str.Syntax().(*syntax.StringNode); isLit {
+		// The plaintext of a secret is literal text: EncryptSecrets stores the string as written and opening the
+		// encrypted form yields exactly those bytes, so the plaintext form must not un-escape "$$" either.
+		str = StringSyntax(lit)
 	}
 	return PlaintextSyntax(node, name, str), diags
 }
